@@ -197,12 +197,33 @@ def r_dtype_provenance(ctx, model):
                             continue
                         tainted.add(nm.id)
                         changed = True
+    # names bound to the element type of column data (`t = b.dtype`, `t = b.dtype.type`, numpy.result_type(<column data>))
+    dtype_names = set()
+    for st in ast.walk(f):
+        if isinstance(st, ast.Assign) and len(st.targets) == 1 and isinstance(st.targets[0], ast.Name):
+            v = st.value
+            while isinstance(v, ast.Attribute) and v.attr in ("type", "name", "str", "char"):
+                v = v.value
+            if isinstance(v, ast.Attribute) and v.attr == "dtype" and expr_tainted(v.value):
+                dtype_names.add(st.targets[0].id)
+            if isinstance(v, ast.Call) and (dotted_name(v.func) or "").split(".")[-1] in ("result_type", "common_type", "find_common_type", "promote_types") \
+                    and any(expr_tainted(a_) for a_ in v.args):
+                dtype_names.add(st.targets[0].id)
+
+    def column_dtype(e):
+        while isinstance(e, ast.Attribute) and e.attr in ("type", "name", "str", "char"):
+            e = e.value
+        return (isinstance(e, ast.Attribute) and e.attr == "dtype" and expr_tainted(e.value)) or (isinstance(e, ast.Name) and e.id in dtype_names)
+
     bad = []
     for c in ast.walk(f):
         if not isinstance(c, ast.Call):
             continue
         name = (dotted_name(c.func) or "")
         last = name.split(".")[-1]
+        if any(k_.arg == "dtype" and column_dtype(k_.value) for k_ in c.keywords) or (last in ("astype", "asarray", "array", "view") and any(column_dtype(a_) for a_ in c.args[:2])):
+            bad.append(f"{src(c)[:80]} (line {c.lineno})")
+            continue
         explicit_float = any(k_.arg == "dtype" and "float" in src(k_.value) for k_ in c.keywords)
         if last in ("empty_like", "zeros_like", "ones_like", "full_like") and c.args and expr_tainted(c.args[0]) and not explicit_float:
             bad.append(f"{src(c)[:80]} (line {c.lineno})")
